@@ -185,6 +185,8 @@ def run_adiabatic(spec):
         r = c.setup()
         asms = r.assemblies
         o.classes["n_asm"] = len(asms)
+        o.classes["twins"] = min(sum(1 for p_ in spec["_meta"]["pos"] if "twin_of" in p_), 3)
+        o.classes["near_twins"] = min(sum(1 for p_ in spec["_meta"]["pos"] if p_.get("near_twin")), 3)
         T0 = float(spec["core"]["coolant_inlet_temp"])
         kinds = [asm_kind(a) for a in asms]
         conv = [any(getattr(g, "_conv_approx", False) for g in a.region) for a in asms]
@@ -237,6 +239,6 @@ def parts(tier):
              examples=8 if q else 200, timeout=240),
         Part("adiabatic", run_adiabatic,
              strategy=gen.core_spec(core_rings=(1, 2), rings=(2, 4), ducts=(1, 3), gap_models=("none",),
-                                    n_steps=(25, 60), regimes=("lam", "tra", "tur"), regions=True),
+                                    n_steps=(25, 60), regimes=("lam", "tra", "tur"), regions=True, twins=True),
              examples=24 if q else 400),
     ]
